@@ -43,9 +43,13 @@ class FnC:
         self.used = False
         self.opens = []
         self.noauto = False
+        self.proof_label = None
 
 
 def parse_labels(line):
+    """`[P1,P2;S1,S2:name~dep1,dep2] clause`.  P = primary properties (a failure of the clause violates them),
+    S = secondary (possibly affected: decided by a concrete witness), deps = labels whose failure in the same
+    function explains this one (then this failure is not attributed separately)."""
     m = re.match(r'\s*\[([^\]]*)\]\s*(.*)$', line, flags=re.S)
     if not m:
         return None, line
@@ -53,10 +57,14 @@ def parse_labels(line):
     if ':' not in inner:
         return None, line
     props, name = inner.split(':', 1)
-    props = [p.strip() for p in props.split(',') if p.strip()]
-    if not all(re.match(r'C\d\d$', p) for p in props):
+    prim, _, sec = props.partition(';')
+    prim = [p.strip() for p in prim.split(',') if p.strip()]
+    sec = [p.strip() for p in sec.split(',') if p.strip()]
+    if not all(re.match(r'C\d\d$', p) for p in prim + sec):
         return None, line
-    return {'props': props, 'name': name.strip()}, m.group(2)
+    name, _, deps = name.partition('~')
+    deps = [d.strip() for d in deps.split(',') if d.strip()]
+    return {'props': prim, 'secondary': sec, 'name': name.strip(), 'deps': deps}, m.group(2)
 
 
 def split_clauses(lines):
@@ -130,7 +138,13 @@ def parse_sidecar(text, src):
                 else:
                     cur.ret = arg
             elif d == '@safety':
-                cur.safety = [p.strip() for p in arg.split(',') if p.strip()]
+                prim, _, sec = arg.partition(';')
+                cur.safety = {'props': [p.strip() for p in prim.split(',') if p.strip()],
+                              'secondary': [p.strip() for p in sec.split(',') if p.strip()]}
+            elif d == '@proof-labels':
+                cur.proof_label = parse_labels(arg + ' x')[0]
+                if cur.proof_label is None:
+                    raise LostAnchor('bad @proof-labels in %s: %s' % (src, arg))
             elif d == '@external_body':
                 cur.external_body = True
             elif d == '@attr':
@@ -459,7 +473,7 @@ class Gen:
             # preconditions (own or inherited from a trait) or the global axioms are contradictory.  It is an
             # assertion inside the body, so callers are not affected.
             edits.append((f.body_open + 1, f.body_open + 1,
-                          self.render_labelled([(' proof { assert(false); }', {'props': [], 'name': 'canary:' + f.key})], f.key)))
+                          self.render_labelled([(' proof { assert(false); }', {'props': [], 'secondary': [], 'deps': [], 'name': 'canary:' + f.key})], f.key)))
         if spec_lines:
             ins = '\n' + self.render_labelled(spec_lines, f.key) + '\n'
             pos = f.sig_end
@@ -506,7 +520,7 @@ class Gen:
                     if spec[name]:
                         sl.append(('    ' + name, None))
                         for lab, t in spec[name]:
-                            sl.append(('        ' + t.replace('\n', '\n        ') + ',', lab))
+                            sl.append(('        ' + t.replace('\n', '\n        ') + ',', lab or (c.proof_label if name != 'decreases' else None)))
                 p = bo
                 while p > 0 and b[p - 1].isspace():
                     p -= 1
@@ -537,7 +551,7 @@ class Gen:
         # inserts
         for where, anchor, occ, lab, t in c.inserts:
             body_txt = text[lo:hi]
-            rendered = self.render_labelled([(ln, lab) for ln in t.split('\n') if ln.strip()], f.key)
+            rendered = self.render_labelled([(ln, lab or c.proof_label) for ln in t.split('\n') if ln.strip()], f.key)
             if where == 'body-start':
                 edits.append((lo, lo, '\n' + rendered + '\n'))
                 continue
